@@ -27,6 +27,7 @@ def showOut : Out → String
   | .data d src => "ok data " ++ (match d with | some m => toHex m | none => "None") ++ " " ++ optNat src
   | .pdu q => "ok pdu " ++ showPdu q
   | .num n => s!"ok {n}"
+  | .nums l => "ok [" ++ ",".intercalate (l.map toString) ++ "]"
 
 def showWire (w : List (Side × Pdu)) : String :=
   " ".intercalate (w.reverse.map fun q => (if q.1 then "B>" else "A>") ++ showPdu q.2)
@@ -47,6 +48,11 @@ def dumpLlc (c : Llc) : String :=
   "saps=" ++ ",".intercalate saps ++ " snl=" ++ ",".intercalate names ++ " socks=" ++ ",".intercalate socks
     ++ " cache=" ++ ",".intercalate cache
     ++ s!" sd={c.sd.tids.length}:{c.sd.sent.length}:{c.sd.sdreq.length}:{c.sd.sdres.length}:{c.sd.dmpdu.length}"
+    ++ " tids=" ++ ".".intercalate ((c.sd.tids.take 3).map toString) ++ "/"
+    ++ ".".intercalate (((c.sd.tids.reverse.take 3).reverse).map toString)
+    ++ " sent=" ++ ",".intercalate (c.sd.sent.map fun q => s!"{q.1}:{toHex q.2}")
+    ++ " sdreq=" ++ ",".intercalate (c.sd.sdreq.map fun q => s!"{q.1}:{toHex q.2}")
+    ++ " sdres=" ++ ",".intercalate (c.sd.sdres.map fun q => s!"{q.1}:{q.2}")
 
 def side? : String → Option Side
   | "A" => some false
@@ -55,6 +61,22 @@ def side? : String → Option Side
 
 def kind? : String → Option Kind
   | "raw" => some .raw | "ldl" => some .ldl | "dlc" => some .dlc | _ => none
+
+/-- `a,b,c` (or `.` for the empty list), every element parsed by `f` -/
+def parseList {α : Type} (f : String → Option α) (s : String) : Option (List α) :=
+  if s = "." then some [] else (s.splitOn ",").mapM f
+
+/-- `tid:hex` -/
+def parseReq (s : String) : Option (Nat × Bytes) :=
+  match s.splitOn ":" with
+  | [t, h] => do let t ← t.toNat?; let nm ← parseHex h; if t < 256 ∧ nm.length < 255 then pure (t, nm) else none
+  | _ => none
+
+/-- `tid:sap` -/
+def parseRes (s : String) : Option (Nat × Nat) :=
+  match s.splitOn ":" with
+  | [t, a] => do let t ← t.toNat?; let a ← a.toNat?; if t < 256 ∧ a < 256 then pure (t, a) else none
+  | _ => none
 
 def parseOp (p : Pair) (toks : List String) : Option Op :=
   let okId (x : Side) (id : Nat) : Bool := id < (p.get x).n
@@ -91,6 +113,10 @@ def parseOp (p : Pair) (toks : List String) : Option Op :=
   | ["X", x, id] => do
     let x ← side? x; let id ← id.toNat?; if okId x id then pure (.close x id) else none
   | ["M", x] => do let x ← side? x; pure (.xfer x)
+  | ["QQ", x, l] => do let x ← side? x; let nms ← parseList parseHex l; pure (.resolveMany x nms)
+  | ["N", x, id, rq, rs] => do
+    let x ← side? x; let id ← id.toNat?; let rq ← parseList parseReq rq; let rs ← parseList parseRes rs
+    if okId x id then pure (.sendsnl x id rq rs) else none
   | _ => none
 
 def showRes : Py Out → String
